@@ -66,9 +66,10 @@ func init() {
 			runSpecs(c, c01Specs(c.Quick()))
 			c.Cov["rule_schedules"] = "E1: for each scenario every interleaving of the concurrent API calls at MintDB / Lightning call granularity with at most B preemptions (iterative bounding 0..B); oracle per execution: each secret consumed by at most one successful operation (swap returned signatures / melt's payment succeeded or is in flight at the backend), consumed proofs end SPENT or PENDING, state checks monotone, no value created"
 			if c.Quick() {
-				runSched(c, "C01", []string{"S1-swap-swap", "S2-swap-melt", "S3-melt-melt", "S5-swap-swapvariant", "S6-pendingmelt-poll-swap", "S8p-swap-melt-pending", "S8f-swap-melt-failed", "S10-melt-poll-swap"}, 2)
+				runSched(c, "C01", []string{"S1-swap-swap", "S2-swap-melt", "S3-melt-melt", "S5-swap-swapvariant", "S6-pendingmelt-poll-swap", "S8p-swap-melt-pending", "S8f-swap-melt-failed", "S10-melt-poll-swap", "S11-failedmelt-poll-remelt-swap"}, 2)
 			} else {
 				runSched(c, "C01", []string{"S1-swap-swap", "S2-swap-melt", "S3-melt-melt", "S4-swap-melt-check", "S5-swap-swapvariant", "S6-pendingmelt-poll-swap", "S6f-pendingmelt-failed-poll-swap", "S8p-swap-melt-pending", "S8f-swap-melt-failed", "S9-two-input-overlap", "S10-melt-poll-swap"}, 3)
+				runSched(c, "C01", []string{"S11-failedmelt-poll-remelt-swap"}, 2)
 				runSched(c, "C01", []string{"S7-swap-swap-melt"}, 2)
 			}
 		},
